@@ -43,7 +43,7 @@ pub fn dispatch(id: &str, tier: Tier, seed: u64, rest: &[String]) -> i32 {
         "C16" => c16::main(tier, seed),
         "C17" => c17::main(tier, seed),
         "srvdbg" => c13::debug_walk(seed),
-        "C18" => c18::main(tier, seed),
+        "C18" => c18::main(tier, seed, rest),
         "C10" => c10::main(tier, seed),
         "C11" => c11::main(tier, seed),
         _ => {
